@@ -228,7 +228,7 @@ CHECKS["C14"] = dict(
                "2-60 thorough; node sizes 10-100; random and coincident initial positions) built through TGLF or through the Graph API, with "
                "ACA/chains for links, near-alignment on/off, three aspect-ratio classes, four tree growth directions and three paddings.  "
                "After doHOLA: same node ids and edge end pairs, sizes unchanged (1e-9), no two node boxes overlap (1e-6), every route has "
-               ">=2 points, only axis-parallel segments (exact), starts/ends within the padded box of its end nodes, passes through no other "
+               ">=2 points, only axis-parallel segments (1e-9 relative: HOLA rotates and translates the finished drawing), starts/ends within the padded box of its end nodes, passes through no other "
                "node, and every constraint generated from the returned SepMatrix holds for the returned positions (1e-6).",
     level_note="Sampled graphs only; each case costs 0.2-2 s under ASan, so the quick tier is small.  'Within the documented padding' uses nodePaddingScalar x ideal edge length.",
     rule="rapidcheck-generated connected graphs in five families; non-trivial = the graph has a cycle and a degree-1 node (so both the core "
